@@ -3,6 +3,7 @@
 //!                                       its layout mutants and generated programs
 //!   h11 worker                          child process (one request at a time, JSON answers)
 //!   h11 one <cfg-bits> <file>           oracle on one file, verbose (replay)
+mod adjacency;
 mod cases;
 mod fixprobe;
 mod progen;
@@ -64,6 +65,7 @@ fn process(head: &str, text: &str) -> Value {
         "chk" => {
             let mut results = vec![];
             let mut parsed = true;
+            let mut pairs: Option<Vec<String>> = None;
             for c in arg.split(',').filter(|s| !s.is_empty()) {
                 let cfg = Cfg(c.parse::<u32>().unwrap_or(0));
                 let t0 = Instant::now();
@@ -73,6 +75,9 @@ fn process(head: &str, text: &str) -> Value {
                     results.push(json!({"cfg": cfg.0, "stats": v.stats}));
                     break;
                 }
+                if pairs.is_none() {
+                    pairs = Some(v.kind_pairs.clone());
+                }
                 results.push(json!({
                     "cfg": cfg.0,
                     "fails": v.fails.iter().map(|(c, d, s)| json!([c, d, s])).collect::<Vec<_>>(),
@@ -81,7 +86,7 @@ fn process(head: &str, text: &str) -> Value {
                     "out_hash": hash(&v.out),
                 }));
             }
-            json!({"parsed": parsed, "results": results})
+            json!({"parsed": parsed, "results": results, "pairs": pairs.unwrap_or_default()})
         }
         "lb" => cases::lb_case(arg, text),
         _ => json!({"error": "unknown op"}),
@@ -205,6 +210,17 @@ fn main() {
         let text = progen::Gen::new(&mut rng).program();
         jobs.push(Job { origin: format!("gen#{i}"), kind: "generated".into(), text, cfgs: pick_cfgs(&mut rng, 3, i % 4 == 0) });
     }
+    // (3b) systematic adjacency inputs (statement / expression / list / use-run neighbourhoods)
+    let adj = adjacency::all();
+    let narrow = [Cfg(1 << 2), Cfg(1 | (1 << 2) | (1 << 5) | (1 << 6) | (1 << 7)), Cfg(0), Cfg(3 | (2 << 2) | (1 << 4) | (1 << 8))];
+    for (i, a) in adj.iter().enumerate() {
+        let mut cfgs = vec![Cfg::default_cfg(), narrow[i % narrow.len()]];
+        if thorough {
+            cfgs.push(narrow[(i + 1) % narrow.len()]);
+            cfgs.extend(pick_cfgs(&mut rng, 1, false));
+        }
+        jobs.push(Job { origin: a.label.clone(), kind: format!("adjacency:{}", adjacency::family(&a.label)), text: a.text.clone(), cfgs });
+    }
     // (4) the whole option lattice on a few small inputs
     let n_full = if thorough { 24 } else { 4 };
     let mut smalls: Vec<(String, String)> = corpus
@@ -247,6 +263,9 @@ fn main() {
     let mut distinct = std::collections::BTreeSet::new();
     let mut samples: Vec<String> = vec![];
     let mut fail_dir_n = 0;
+    let mut adj_family: BTreeMap<String, (u64, u64)> = BTreeMap::new(); // generated, error-free
+    let mut pairs_adj: std::collections::BTreeSet<String> = Default::default();
+    let mut pairs_other: std::collections::BTreeSet<String> = Default::default();
     let mut kept_by_sig: BTreeMap<String, u64> = BTreeMap::new();
     std::fs::create_dir_all(outdir.join("failing")).unwrap();
     for (j, o) in jobs.iter().zip(outcomes.iter()) {
@@ -254,10 +273,26 @@ fn main() {
         e.0 += 1;
         match o {
             Outcome::Answer(v) => {
+                let is_adj = j.kind.starts_with("adjacency:");
+                if is_adj {
+                    adj_family.entry(j.kind[10..].to_string()).or_default().0 += 1;
+                }
                 if !v["parsed"].as_bool().unwrap_or(false) {
                     continue;
                 }
                 e.1 += 1;
+                if is_adj {
+                    adj_family.entry(j.kind[10..].to_string()).or_default().1 += 1;
+                }
+                for p in v["pairs"].as_array().unwrap_or(&vec![]) {
+                    if let Some(p) = p.as_str() {
+                        if is_adj {
+                            pairs_adj.insert(p.to_string());
+                        } else {
+                            pairs_other.insert(p.to_string());
+                        }
+                    }
+                }
                 for r in v["results"].as_array().unwrap_or(&vec![]) {
                     let cfg = Cfg(r["cfg"].as_u64().unwrap_or(0) as u32);
                     evals += 1;
@@ -379,6 +414,16 @@ fn main() {
         "oracle_run_s": run_s, "workers": n_workers,
         "cases": case_summary,
         "oracle_selftest": selftest,
+        "adjacency": {
+            "inputs_generated": adj.len(),
+            "inputs_error_free": adj_family.values().map(|v| v.1).sum::<u64>(),
+            "by_family": adj_family.iter().map(|(k, v)| (k.clone(), json!({"generated": v.0, "error_free": v.1}))).collect::<serde_json::Map<_, _>>(),
+            "token_kind_pairs_adjacency_inputs": pairs_adj.len(),
+            "token_kind_pairs_other_inputs": pairs_other.len(),
+            "token_kind_pairs_only_in_adjacency_inputs": pairs_adj.difference(&pairs_other).count(),
+            "token_kind_pairs_total": pairs_adj.union(&pairs_other).count(),
+            "sample_pairs_only_in_adjacency_inputs": pairs_adj.difference(&pairs_other).take(40).cloned().collect::<Vec<_>>(),
+        },
         "total_s": t_start.elapsed().as_secs_f64(),
     });
     std::fs::write(outdir.join("summary.json"), serde_json::to_string_pretty(&summary).unwrap()).unwrap();
